@@ -20,6 +20,14 @@ import (
 
 var bg = context.Background()
 
+// pinWireAddress makes the restorer decode peers as the sim wire addresses this driver generates.
+// The constructor is process-global and the last package init wins: in cmd/vharness another driver
+// links wire/net/simple, whose init replaces the sim constructor, and peers restored from the store
+// would then come back as a different address type.
+func pinWireAddress() {
+	wire.SetNewAddressFunc(func() wire.Address { return simwire.NewAddress() })
+}
+
 // Tables are the per-file tables of a cases file: interned states and the token of every signature.
 type Tables struct {
 	sts   []string
